@@ -218,6 +218,7 @@ func (m *Manager) manageReader() {
 	var pkt drpcwire.Packet
 	var err error
 	var run int
+	var invoked uint64 // largest stream id whose invoke has been forwarded
 
 	for !m.sigs.term.IsSet() {
 		// if we have a run of "small" packets, drop the buffer to release
@@ -267,6 +268,9 @@ func (m *Manager) manageReader() {
 
 			select {
 			case m.pkts <- pkt:
+				if pkt.Kind == drpcwire.KindInvoke {
+					invoked = pkt.ID.Stream
+				}
 				m.pdone.Recv()
 
 			case <-m.sigs.term.Signal():
@@ -279,6 +283,14 @@ func (m *Manager) manageReader() {
 		default:
 			if curr != nil && !curr.IsTerminated() {
 				curr.Cancel(context.Canceled)
+			}
+
+			// a stream is only ever created for a forwarded invoke, so a packet for
+			// a stream that was never invoked (for example the cancel of a call
+			// that was abandoned before its invoke was sent) can never be
+			// delivered: drop it instead of waiting forever.
+			if pkt.ID.Stream > invoked {
+				continue
 			}
 
 			if !m.sbuf.Wait(curr.ID()) {
